@@ -116,6 +116,10 @@ class MatrixHist : public Engine {
             } else {
                 col = r.chance(1, 4) ? (r.chance(1, 2) ? 0 : lim_cells - 1) : r.below(lim_cells);
             }
+            if (i > 0 && r.chance(1, 3) && p.ops.back().has("row")) { // the same cell again
+                row = p.ops.back().u("row");
+                col = p.ops.back().u("col");
+            }
             op.set("row", row);
             op.set("col", col);
             if (kind == "bit") {
@@ -130,6 +134,16 @@ class MatrixHist : public Engine {
                 if (r.chance(2, 3)) {
                     op.kind = "set";
                     uint64_t v = r.chance(1, 4) ? ~0ULL : (r.chance(1, 4) ? 0 : r.next());
+                    if ((kind == "float" || kind == "double") && r.chance(1, 3)) {
+                        // values that compare equal / unordered as numbers but differ as stored bits
+                        static const uint32_t f32[] = {0x00000000u, 0x80000000u, 0x7f800000u, 0xff800000u, 0x7fc00000u,
+                                                       0x7fc00001u, 0xffc00000u, 0x00000001u, 0x80000001u, 0x3f800000u};
+                        static const uint64_t f64[] = {0x0000000000000000ULL, 0x8000000000000000ULL, 0x7ff0000000000000ULL,
+                                                       0xfff0000000000000ULL, 0x7ff8000000000000ULL, 0x7ff8000000000001ULL,
+                                                       0xfff8000000000000ULL, 0x0000000000000001ULL, 0x8000000000000001ULL,
+                                                       0x3ff0000000000000ULL};
+                        v = kind == "float" ? (uint64_t)r.pick(f32) : r.pick(f64);
+                    }
                     op.set("v", v);
                 } else
                     op.kind = "get";
@@ -139,6 +153,20 @@ class MatrixHist : public Engine {
                 Op h;
                 h.kind = "header";
                 p.ops.push_back(h);
+            }
+            if (full && rows > 1 && r.chance(1, 12)) {
+                // another matrix of the same width class moves into the same buffer: its header is
+                // copied in (a serialised matrix read from elsewhere), not re-encoded in place
+                unsigned rwid = width_of(rows), cwid = width_of(cols);
+                uint64_t c2 = value_of_width(r, cwid), r2 = value_of_width(r, rwid);
+                if (r.chance(1, 2)) c2 = cols > 1 ? cols - 1 - r.below(std::min<uint64_t>(cols - 1, 3)) : cols;
+                if (r.chance(1, 3)) r2 = rows;
+                Op rs;
+                rs.kind = "reshape";
+                rs.set("rows2", r2);
+                rs.set("cols2", c2);
+                rs.set("fill2", r.next() & 0xffffffff);
+                p.ops.push_back(rs);
             }
         }
         return p;
@@ -244,6 +272,34 @@ class MatrixHist : public Engine {
                         fail("header-modified", key, "header bytes changed");
                         break;
                     }
+                    continue;
+                }
+                if (k == "reshape") {
+                    uint64_t r2 = op.u("rows2"), c2 = op.u("cols2");
+                    if (c2 == 0 || width_of(r2) != rw || width_of(c2) != cw) continue;
+                    uint64_t cells2 = 0;
+                    bool full2 = materialised(r2, c2, kind, ew, cells2);
+                    size_t body2 = kind == "bit" ? (size_t)((cells2 + 7) / 8) : (size_t)cells2 * ew;
+                    if (H + body2 > total) continue; // does not fit the block this run owns
+                    uint8_t h2[32];
+                    memset(h2, 0xAB, sizeof h2);
+                    varintDimensionPair d2 = varintDimensionPairDimension(r2, c2);
+                    if (d2 != dim) continue; // same width class means the same dimension byte
+                    // a serialised header produced elsewhere, copied into place
+                    for (unsigned i = 0; i < rw; i++) h2[i] = (uint8_t)(r2 >> (8 * i));
+                    for (unsigned i = 0; i < cw; i++) h2[rw + i] = (uint8_t)(c2 >> (8 * i));
+                    memcpy(buf, h2, H);
+                    memcpy(image.data(), h2, H);
+                    memcpy(want, h2, H);
+                    Rng f2(op.u("fill2", 11));
+                    for (size_t i = H; i < total; i++) buf[i] = image[i] = (uint8_t)f2.next();
+                    rows = r2;
+                    cols = c2;
+                    cells = cells2;
+                    full = full2;
+                    stat("op.reshape");
+                    g_log.u64(rows);
+                    g_log.u64(cols);
                     continue;
                 }
                 if (k == "pack") {
